@@ -37,13 +37,16 @@ type Config struct {
 }
 
 type StepRec struct {
-	URL            string     `json:"url"`
-	ParentType     string     `json:"parentType"`
-	InsertionPoint []string   `json:"insertionPoint"`
-	Query          string     `json:"query"`
-	Vars           []string   `json:"vars"`
-	OpName         string     `json:"opName"`
-	Then           []*StepRec `json:"then"`
+	URL            string             `json:"url"`
+	ParentType     string             `json:"parentType"`
+	InsertionPoint []string           `json:"insertionPoint"`
+	Query          string             `json:"query"`
+	Vars           []string           `json:"vars"`
+	OpName         string             `json:"opName"`
+	Then           []*StepRec         `json:"then"`
+	Depth          int                `json:"depth"`
+	Internal       bool               `json:"internal"`
+	Facts          *fakesvc.StepFacts `json:"facts"`
 }
 
 type PlanRec struct {
@@ -92,16 +95,38 @@ type recPlanner struct {
 	g     *GW
 }
 
-func stepRec(s *planner.QueryPlanStep) *StepRec {
+func (g *GW) stepRec(s *planner.QueryPlanStep, depth int) *StepRec {
 	r := &StepRec{URL: s.URL, ParentType: s.ParentType, InsertionPoint: append([]string{}, s.InsertionPoint...), Query: s.QueryString,
-		Vars: append([]string{}, s.VariablesList...), Then: []*StepRec{}}
+		Vars: append([]string{}, s.VariablesList...), Then: []*StepRec{}, Depth: depth}
 	if s.OperationName != nil {
 		r.OpName = *s.OperationName
 	}
+	if svc := g.Net.Service(s.URL); svc != nil {
+		r.Facts = svc.Facts(s.QueryString)
+	} else {
+		r.Internal = true
+		r.Facts = &fakesvc.StepFacts{Sel: []*world.Sel{}, Declared: map[string]string{}, Defaults: map[string]string{}, Used: []string{}}
+	}
 	for _, t := range s.Then {
-		r.Then = append(r.Then, stepRec(t))
+		r.Then = append(r.Then, g.stepRec(t, depth+1))
 	}
 	return r
+}
+
+// Flat lists all steps of a plan.
+func (p *PlanRec) Flat() []*StepRec {
+	var out []*StepRec
+	var walk func(s *StepRec)
+	walk = func(s *StepRec) {
+		out = append(out, s)
+		for _, t := range s.Then {
+			walk(t)
+		}
+	}
+	for _, r := range p.Roots {
+		walk(r)
+	}
+	return out
 }
 
 func (p *recPlanner) Plan(ctx *planner.PlanningContext) (*planner.QueryPlan, error) {
@@ -111,7 +136,7 @@ func (p *recPlanner) Plan(ctx *planner.PlanningContext) (*planner.QueryPlan, err
 		rec.Err = err.Error()
 	} else {
 		for _, s := range qp.RootSteps {
-			rec.Roots = append(rec.Roots, stepRec(s))
+			rec.Roots = append(rec.Roots, p.g.stepRec(s, 0))
 		}
 		for k, v := range qp.ScrubFields {
 			rec.Scrub[k] = v
@@ -194,7 +219,12 @@ func New(w *world.World, cfg Config) (*GW, error) {
 			if !ok {
 				return "", false
 			}
-			if e := w.Ents[s]; e != nil {
+			// "If it fails to determine, return false": undecided for about a third of the ids
+			h := 0
+			for _, c := range s {
+				h = h*31 + int(c)
+			}
+			if e := w.Ents[s]; e != nil && h%3 != 0 {
 				return e.Type, true
 			}
 			return "", false
